@@ -27,7 +27,7 @@ ASSUMPTIONS = ['MPyC coroutine tasks = tasks created through asyncoro.Task (the 
 
 
 def budget(tier):
-    return dict(shards=16, examples=25 if tier == 'quick' else 400)
+    return dict(shards=16, examples=50 if tier == 'quick' else 400)
 
 
 @st.composite
